@@ -36,8 +36,8 @@ class NumericalSolver:
         else:             # create anonymous node
             p.part_units()
             value, units = p.value_raw, p.units_raw
-        with UnitEnvironment(self.env.units):                
-            unit = Quantity(float(value), units)
+        # the unit scope of the environment is already open (see solve)
+        unit = Quantity(float(value), units)
         unit.symbol = expr
         return unit
         
